@@ -12,6 +12,7 @@ import (
 	golog "github.com/ipfs/go-log/v2"
 	"github.com/keep-network/keep-core/internal/testutils"
 	"github.com/keep-network/keep-core/internal/verifkit"
+	"github.com/keep-network/keep-core/pkg/chain"
 	"github.com/keep-network/keep-core/pkg/protocol/group"
 	"github.com/keep-network/keep-core/pkg/tecdsa"
 	"pgregory.net/rapid"
@@ -62,6 +63,31 @@ func (c *c36Claimer) claimInactivity(ctx context.Context, inactive []group.Membe
 	return nil
 }
 
+// c36Chain is the chain handle of the heartbeat action with fault injection on
+// the two lookups isOperatorUnstaking() makes; everything else is the
+// package's local chain.
+type c36Chain struct {
+	*localChain
+	fault string // "", "provider-error", "not-registered", "stake-error"
+}
+
+func (c *c36Chain) OperatorToStakingProvider() (chain.Address, bool, error) {
+	switch c.fault {
+	case "provider-error":
+		return "", false, fmt.Errorf("drawn staking provider lookup failure")
+	case "not-registered":
+		return "", false, nil
+	}
+	return c.localChain.OperatorToStakingProvider()
+}
+
+func (c *c36Chain) EligibleStake(stakingProvider chain.Address) (*big.Int, error) {
+	if c.fault == "stake-error" {
+		return nil, fmt.Errorf("drawn eligible stake lookup failure")
+	}
+	return c.localChain.EligibleStake(stakingProvider)
+}
+
 func c36SortedSet(m []group.MemberIndex) string {
 	c := append([]group.MemberIndex{}, m...)
 	sort.Slice(c, func(i, j int) bool { return c[i] < c[j] })
@@ -72,7 +98,7 @@ func TestVerif_C36_HeartbeatEscalation(t *testing.T) {
 	_ = golog.SetLogLevel("*", "fatal")
 	st := verifkit.New("C36", "TestVerif_C36_HeartbeatEscalation")
 	defer st.Flush()
-	hostChain := Connect()
+	hostChain := &c36Chain{localChain: Connect()}
 	var serial uint64 // makes every proposal message unique on the shared chain
 	strides := []int{1, 3, 7, 9, 11, 13, 17, 19, 21, 23, 27, 29, 31, 33, 37, 39, 41, 43, 47, 49}
 	rapid.Check(t, func(t *rapid.T) {
@@ -98,7 +124,7 @@ func TestVerif_C36_HeartbeatEscalation(t *testing.T) {
 		steps := rapid.IntRange(1, 24).Draw(t, "steps")
 		for s := 0; s < steps; s++ {
 			wi := rapid.IntRange(0, nWallets-1).Draw(t, "wallet")
-			outcome := rapid.SampledFrom([]string{"low", "low", "low", "low", "low", "low", "success", "sign-error", "unstaking", "invalid"}).Draw(t, "outcome")
+			outcome := rapid.SampledFrom([]string{"low", "low", "low", "low", "low", "low", "success", "sign-error", "unstaking", "invalid", "lookup-error", "lookup-error"}).Draw(t, "outcome")
 			seen[outcome] = true
 
 			serial++
@@ -108,7 +134,16 @@ func TestVerif_C36_HeartbeatEscalation(t *testing.T) {
 			}
 			proposal.Message[0] = 0xff
 			hostChain.setHeartbeatProposalValidationResult(proposal, outcome != "invalid")
-			if outcome == "unstaking" {
+			// lookup-error: the staking state cannot be determined (one of the
+			// two lookups fails) - with the operator really unstaking or not;
+			// the signing, if it happened, would report low activity.
+			hostChain.fault = ""
+			reallyUnstaking := outcome == "unstaking"
+			if outcome == "lookup-error" {
+				hostChain.fault = rapid.SampledFrom([]string{"stake-error", "stake-error", "provider-error", "not-registered"}).Draw(t, "fault")
+				reallyUnstaking = rapid.Bool().Draw(t, "reallyUnstaking")
+			}
+			if reallyUnstaking {
 				hostChain.setOperatorsEligibleStake(big.NewInt(0))
 			} else {
 				hostChain.setOperatorsEligibleStake(big.NewInt(int64(rapid.IntRange(1, 1_000_000).Draw(t, "stake"))))
@@ -117,9 +152,12 @@ func TestVerif_C36_HeartbeatEscalation(t *testing.T) {
 			signer := &c36Signer{fail: outcome == "sign-error"}
 			claimer := &c36Claimer{}
 			desc := fmt.Sprintf("w%d:%s", wi, outcome)
-			if outcome == "low" || outcome == "success" {
+			if outcome == "lookup-error" {
+				desc += fmt.Sprintf("[%s,unstaking=%v]", hostChain.fault, reallyUnstaking)
+			}
+			if outcome == "low" || outcome == "success" || outcome == "lookup-error" {
 				active := rapid.IntRange(c36RequiredActive, c36GroupSize).Draw(t, "activeCount")
-				if outcome == "low" {
+				if outcome != "success" {
 					// biased to the boundary: 69 active is still a failure
 					active = rapid.SampledFrom([]int{0, 1, 35, 51, 60, 68, 69, 69, 69}).Draw(t, "lowActiveCount")
 				} else if rapid.Bool().Draw(t, "exactlyRequired") {
@@ -135,7 +173,7 @@ func TestVerif_C36_HeartbeatEscalation(t *testing.T) {
 						signer.inactive = append(signer.inactive, m)
 					}
 				}
-				claimer.fail = outcome == "low" && rapid.IntRange(0, 3).Draw(t, "claimFails") == 3
+				claimer.fail = outcome != "success" && rapid.IntRange(0, 3).Draw(t, "claimFails") == 3
 				desc += fmt.Sprintf("(%d@%d/%d%s)", active, offset, stride, map[bool]string{true: ",claim-err", false: ""}[claimer.fail])
 			}
 			history = append(history, desc)
@@ -177,6 +215,17 @@ func TestVerif_C36_HeartbeatEscalation(t *testing.T) {
 			}
 			if !expectClaim && len(claimer.claims) == 1 {
 				t.Fatalf("inactivity claimed although the run of low-activity heartbeats of wallet %d has length %d (outcome %s); %s", wi, run[wi], outcome, where)
+			}
+			if outcome == "lookup-error" {
+				// the staking state is unknown: the heartbeat must not go on
+				// (documented contract of execute: "failed to check if the
+				// operator is unstaking"), in particular it must not sign
+				if signer.calls != 0 {
+					t.Fatalf("heartbeat signed although the staking state could not be determined (%s, really unstaking: %v); %s", hostChain.fault, reallyUnstaking, where)
+				}
+				if err == nil {
+					t.Fatalf("heartbeat returned no error although the staking state could not be determined (%s); %s", hostChain.fault, where)
+				}
 			}
 			if expectClaim {
 				c := claimer.claims[0]
